@@ -372,6 +372,13 @@ func c18ProtPis(thorough bool) (tags []string, pis [][]float64) {
 		ramp[i] = float64(i+1) / 210
 	}
 	add("ramp", ramp)
+	// one amino acid nearly absent (2e-4: a valid frequency, below any floor a model might be tempted to apply)
+	rare := make([]float64, 20)
+	for i := range rare {
+		rare[i] = (1 - 2e-4) / 19
+	}
+	rare[17] = 2e-4
+	add("rare-W", rare)
 	if thorough {
 		for k := 1; k < 20; k++ {
 			add(fmt.Sprintf("dominant%d", k), dom(k))
